@@ -1037,6 +1037,17 @@ def _r_raise(ck, world, table, rules, infos) -> None:
                         continue
                     declared = info.left if side == 'left' else info.right
                     var = LEFT if side == 'left' else RIGHT
+                    # a positive isinstance fact on this path already puts the operand in the asserted classes
+                    implied = None
+                    if asserted:
+                        for f in fs:
+                            if f[0] == 'isinstance' and f[1] == var and f[3] is True:
+                                ks = classes_of_term(world, table, module, _expand(table, rule, f[2], params[0]))
+                                if ks and all(any(table.is_subclass(k, a) for a in asserted) for k in ks):
+                                    implied = ks
+                    if implied:
+                        ck.ok('R-RAISE', path.node, f'assert implied: on this path the operand is known to be an instance of {[k.name for k in implied]}', instance=f'{rule.name}.{name} assert {side}')
+                        continue
                     if declared is None and info.either is not None:
                         # either-side style: the other operand is known not to be an instance on this path
                         other = RIGHT if side == 'left' else LEFT
